@@ -20,7 +20,7 @@ property_meta('C11', level='proof', min_obligations=30,
               explanation='branch regions of the quaternion extraction as paths; identities modulo unit norm; Euler through sin/cos/atan2/asin atoms')
 
 CV = 'pypose.lietensor.convert'
-QREG = ('generic', 'identity', 'nearpi', 'small', 'neg')
+QREG = ('generic', 'identity', 'nearpi', 'halfturn', 'small', 'neg')
 
 
 @obligation('C11.mat2SO3.regions', functions=[f'{CV}:mat2SO3'], max_paths=32)
